@@ -399,6 +399,35 @@ def rule_r7(ctx) -> List[R.Inst]:
         else:
             insts.append(R.undec(rid, key, file, lp.lineno, f"provenance of the column not resolved: {got}"))
         # skipping empty buffers must not renumber: a `continue` is fine, slicing the iterable is not (covered above)
+        # totality: every collected position yields an object — no filter on a per-object value (a time of 0.0 ms is falsy)
+        key2 = f"{nf.name}:total"
+        perobj = set()
+        for x in ast.walk(lp):
+            if x is not lp and isinstance(x, ast.For):
+                perobj |= {y.id for y in ast.walk(x.target) if isinstance(y, ast.Name)}
+            if isinstance(x, (ast.ListComp, ast.GeneratorExp)):
+                for g in x.generators:
+                    perobj |= {y.id for y in ast.walk(g.target) if isinstance(y, ast.Name)}
+        # names assigned from per-object names are per-object too
+        for _ in range(3):
+            for x in ast.walk(lp):
+                if isinstance(x, ast.Assign) and any(isinstance(y, ast.Name) and y.id in perobj for y in ast.walk(x.value)):
+                    perobj |= {y.id for t in x.targets for y in ast.walk(t) if isinstance(y, ast.Name)}
+        filt = []
+        for x in ast.walk(lp):
+            if isinstance(x, (ast.ListComp, ast.GeneratorExp)):
+                for g in x.generators:
+                    for c in g.ifs:
+                        if any(isinstance(y, ast.Name) and y.id in perobj for y in ast.walk(c)):
+                            filt.append(c)
+            if isinstance(x, ast.If) and any(isinstance(y, ast.Name) and y.id in perobj for y in ast.walk(x.test)):
+                filt.append(x.test)
+        if filt:
+            insts.append(R.viol(rid, key2, file, filt[0].lineno,
+                                f"objects are kept or dropped by a test on their own value ('{unparse(filt[0])}'): every collected position "
+                                f"must yield an object — in particular a time of exactly 0.0 ms is falsy", construct=f"{nf.name}: filter {unparse(filt[0])}"))
+        else:
+            insts.append(R.ok(rid, key2, file, lp.lineno, idiom="one object per collected position (no per-object filter)"))
     # every expander result feeds the list of its own slot: checked by C02.R1
     if not insts:
         insts.append(R.undec(rid, "expanders", file, fn.node.lineno, "expander functions not found"))
@@ -605,7 +634,7 @@ SPECS = [
     RuleSpec("C02.R4", rule_r4, 3, "A8", "un-reseated map times the notes; reseated map (same inputs) feeds the tempo list; #OFFSET field"),
     RuleSpec("C02.R5", rule_r5, 3, "A8", "every chart of the file is returned"),
     RuleSpec("C02.R6", rule_r6, 2, "A8", "no None placeholder reaches a dereference"),
-    RuleSpec("C02.R7", rule_r7, 2, "A5", "expanders number columns by the per-column buffer index"),
+    RuleSpec("C02.R7", rule_r7, 4, "A5", "expanders number columns by the per-column buffer index"),
     RuleSpec("C02.R9", rule_r9, 4, "A7", "row position shapes: beat slice bounds, fraction inside the beat, Snap arguments"),
     RuleSpec("C02.R8", rule_r8, 6, "A3", "every chart gets its own list objects (fresh defaults per instance)"),
     RuleSpec("C02.R10", rule_r10, 1, "A8", "every collected position is put into the position -> ms table the expanders look up"),
